@@ -44,6 +44,7 @@ func c10Gen(rng *rand.Rand, tier string) []Case {
 		case i%20 == 3:
 			o.leave = true // the model correspondence also covers lives with a leave; judged by C13
 		}
+		o.staleTmp = i%5 == 4 // a stale compaction temp file beside the snapshot at every restart (must be ignored)
 		out = append(out, snapCase(rng, fmt.Sprintf("r%d", i), o))
 	}
 	return out
@@ -55,7 +56,7 @@ func init() {
 		Rule: "hand-written snapshot files through the real replay (parser cases) + random lives of the real Snapshotter: 1-2 generations of ≤40 events " +
 			"(join 35% incl. multi-member, leave/failed 20%, update/reap, user/query times incl. 0, 2^63, 2^64-1, clock ticks, flush-interval elapsing, forced compaction, dumps) " +
 			"over 2-6 names from a palette (spaces, ':', 'alive: ' / 'not-alive: ' / 'clock: ' / '#' prefixes, empty, invalid UTF-8, trailing/leading spaces; 10% long names 300-9000 bytes; 5% names with newline) " +
-			"× IPv4/IPv6/odd/empty IPs × thresholds {0,1,64,200,128KiB}; 10% driven through the real goroutines (NewSnapshotter/channel/Wait), the rest through the synchronous hooks; every life ends with shutdown + reopen by the real NewSnapshotter; " +
+			"× IPv4/IPv6/odd/empty IPs × thresholds {0,1,64,200,128KiB}; 10% driven through the real goroutines (NewSnapshotter/channel/Wait), the rest through the synchronous hooks; every life ends with shutdown + reopen by the real NewSnapshotter; a fifth of the lives restart beside a stale compaction temp file (must be ignored while the snapshot exists); " +
 			"non-trivial = ≥2 joins, ≥1 removal or event/query time, and threshold ≤200 or a forced compaction (the snapshot is compacted); distinct = distinct op sequence",
 		Gen:  c10Gen,
 		Exec: snapExec,
